@@ -159,8 +159,9 @@ KEEP = {
     "mver": {"algMismatch", "algNotFound", "missingPayload", "emptySig", "noSignatures", "verification", "verifier"},
     "v0": {"algMismatch", "algNotFound", "missingPayload", "emptySig", "noSignatures", "verification", "verifier"},
     "v1": {"algMismatch", "algNotFound", "missingPayload", "emptySig", "noSignatures", "verification", "verifier"},
+    "ver2": {"algMismatch", "algNotFound", "missingPayload", "emptySig", "noSignatures", "verification", "verifier"},
 }
-ERRTOK = re.compile(r"\b(sign|res|c0|cf|ver|mver|v0|v1|enc)=err (\w+)")
+ERRTOK = re.compile(r"\b(sign|res|c0|cf|ver2|ver|mver|v0|v1|enc)=err (\w+)")
 
 
 def canon(line):
